@@ -24,9 +24,13 @@ PROPS = {
         gen=gens_sym.gen_c02, consts=['SM4.lean'], level='proof',
         technique='Lean 4 refinement + Feistel-involution proof for all keys/blocks; S-box bijectivity by kernel enumeration; dumped tables re-proved; differential correspondence',
         static_scan=['gm-sm4'],
+        level_text='Proof: `sm4_enc_refines`/`sm4_dec_refines` show the model of Sm4Cipher (8x4 unrolled key schedule and rounds over mutable arrays, reversed key indexing) equals GB/T 32907 for EVERY 16-byte key and block; `crypt_involution` proves decrypt(encrypt(x)) = x and encrypt(decrypt(y)) = y for an arbitrary round-key list (so for all 2^256 pairs); `sbox_bijective` and `sbox_algebraic` (the table equals the standard\'s GF(2^8) inversion/affine construction) are kernel enumerations; `ck_rule` ties CK to its generating rule; `new_total`/`encrypt_total`/`decrypt_total` give error-not-panic for wrong lengths. Tied to the Rust code by dumped SBOX/FK/CK (re-proved equal) and a three-way differential incl. per-S-box-entry sweeps and mixed-history ops on one object.',
+        level_note='Trusted: Lean kernel; Spec.SM4 transcription (validated on the Annex example and 40 OpenSSL ECB vectors each run); Impl<->Rust tie is sampling; immutability of the Rust object by &self + static scan.',
         assumptions=["immutability on the Rust side: methods take &self, static scan for interior mutability + history ops"]),
     'C07': dict(
         gen=gens_sym.gen_c07, consts=['SM4.lean'], level='proof',
+        level_text='Proof: `ctr/ofb/cfb_enc/cfb_dec/cbc_enc/cbc_dec_refines` show each index-based mode loop of the model equals the SP 800-38A definition over the SM4 block function for EVERY key, IV and data length; `add_one` proves the 16-byte counter increment is +1 mod 2^128 (carry through all bytes, wrap-around); `*_round_trip` prove decrypt(encrypt(data)) = data for every length (CBC through PKCS#7 and C02\'s D.E = id); `cbc_dec_err`, `iv_len_err`, `key_len_err`, `mode_total` state the error logic outright and exclude panics; `stream_length`/`cbc_length` give the output sizes. Tied to the Rust code by a three-way differential over every length 0..70/200, carry IVs FF^j, every CBC-decrypt length and last byte, wrong IV/key sizes, and 404 OpenSSL mode vectors.',
+        level_note='Trusted: Lean kernel; Spec.Modes transcription (validated on the OpenSSL CBC/CFB/OFB/CTR corpus each run); Impl<->Rust tie is sampling.',
         technique='Lean 4 refinement of the four mode loops to SP 800-38A definitions + round-trip theorems for every length; differential correspondence',
         assumptions=[]),
     'C08': dict(
